@@ -863,7 +863,7 @@ class PendingFunctionDef(_PendingCompoundStmt[FunctionDef]):
         for tmp_nsp in self.nsp.inner_nsp:
             if (
                 tmp_nsp.symt.get_lineno() == node.lineno
-                and tmp_nsp.symt.get_name() == node.name
+                and tmp_nsp.symt.get_name() == getattr(node, "_ol_name", node.name)
             ):
                 assert isinstance(tmp_nsp, NamespaceFunction)
                 self.internal_nsp = tmp_nsp
@@ -1064,7 +1064,7 @@ class PendingClassDef(_PendingCompoundStmt[ClassDef]):
         for tmp_nsp in self.nsp.inner_nsp:
             if (
                 tmp_nsp.symt.get_lineno() == node.lineno
-                and tmp_nsp.symt.get_name() == node.name
+                and tmp_nsp.symt.get_name() == getattr(node, "_ol_name", node.name)
             ):
                 assert isinstance(tmp_nsp, NamespaceClass)
                 self.internal_nsp = tmp_nsp
@@ -1138,7 +1138,7 @@ class PendingClassDef(_PendingCompoundStmt[ClassDef]):
                 value=Call(
                     func=metaclass_expr,
                     args=[
-                        Constant(value=self.node.name),
+                        Constant(value=getattr(self.node, "_ol_name", self.node.name)),
                         Tuple(elts=class_bases, ctx=Load()),
                         self.internal_nsp.class_member_dict_expr,
                     ],
